@@ -33,7 +33,7 @@ check(
 check(
     "C12",
     "other",
-    "bounded symbolic verification of the decision functions that mirror CPython rules: reachability (consider_sys_version_info / consider_sys_platform / infer_condition_value: expression shapes enumerated, every int/str parameter and the target version symbolic; a definite answer must equal the runtime value), constant folding (folded value = the Python operator's value, for every operand), argument binding (the real argmap.map_actuals_to_formals and ExpressionChecker.check_argument_count on solver-chosen signatures x precise call shapes, oracle = CPython binding the same call), MRO kernel when present (see evidence sections). Counterexamples are replayed with the real mypy command against CPython before being reported.",
+    "bounded symbolic verification of the decision functions that mirror CPython rules: reachability (consider_sys_version_info / consider_sys_platform / infer_condition_value: expression shapes enumerated, every int/str parameter and the target version symbolic; a definite answer must equal the runtime value), constant folding (folded value = the Python operator's value, for every operand), argument binding (the real argmap.map_actuals_to_formals and ExpressionChecker.check_argument_count on solver-chosen signatures x precise call shapes, oracle = CPython binding the same call), method resolution order (the real mro.calculate_mro/linearize_hierarchy/merge on TypeInfos for every hierarchy of 5/6 classes with ordered base lists of <= 3 earlier classes, oracle = CPython's type()). Counterexamples are replayed with the real mypy command against CPython before being reported.",
     "trusted: z3, pysem table, the runtime model sys.version_info=(major, minor, micro>=0, 'final', serial>=0); bitwise/float-libm operators uninterpreted; known findings: open-ended version_info comparisons; duplicate keywords through **TypedDict (known_findings.json)",
     "symbolic execution of real Python source with z3 (decision-replay) + replay against CPython",
     "DESIGN.md 4/C12",
